@@ -25,7 +25,7 @@ def run(ctx):
     fc.run_filter(ctx, vh, t, cases=cp, repos=REPOS)
     traces.append(t)
     # 3. direction B: seeded-random histories under seeded-random table policies / allow sets
-    nrand = 40 if quick else 3000
+    nrand = 40 if quick else 2000
     i = 0
     while nrand > 0:
         k = min(500, nrand)
@@ -40,7 +40,7 @@ def run(ctx):
     ctx.cov['samples'] = [dict(tlc_case={k: cases[0][k] for k in ('kind', 'pop', 'pol', 'allow')}, first_ops=cases[0]['ops'][:3]),
                           dict(rejected=fc.sample_events(traces[-1], 2, lambda e: e.get('ok') is False and not e['backend'] and e['cons'])),
                           dict(listing=fc.sample_events(traces[0], 2, lambda e: e['op'] == 'ListRepos' and len(e['cons']) > 2))]
-    vlib.judge_traces(ctx, 'OciFilterTrace', 'OciFilterTrace.cfg', traces, shard_lines=1500, label='AccessChecker/Select vs OciFilter')
+    vlib.judge_traces(ctx, 'OciFilterTrace', 'OciFilterTrace.cfg', traces, shard_lines=1500 if quick else 6000, label='AccessChecker/Select vs OciFilter')
     need = ['checker:rejected', 'select:rejected', 'checker:MountBlob', 'checker:ListRepos', 'select:ListRepos', 'checker:Write', 'checker:Commit']
     missing = [k for k in need if not ctx.cov['per_op'].get(k)]
     if missing:
